@@ -106,6 +106,18 @@ def generate(rng, tier, focus):
         if rng.random() < 0.3:
             acts.insert(rng.randrange(1, len(acts) + 1), sub(1, ["hot", rng.randrange(2)]))
         cases.append((scn(subjects=subj, handles=2, script_=acts), {"k": "hot"}))
+    # 5b. a terminal that lands in the MIDDLE of a subject's fan-out: 2-3 subscribers attached directly to one subject all react to
+    #     their j-th item by terminating (or feeding) that subject; whoever is served later must not see the item after the terminal
+    for _ in range(1500 if thorough else 250):
+        kind = rng.choice([["subject"], ["subject"], ["behavior", 0], ["replay"]])
+        nsub = rng.choice([2, 2, 3])
+        j = rng.randrange(0, 3)
+        back = rng.choice([C, C, e(4), n(7)])
+        jj = j + (1 if kind[0] == "behavior" else 0)
+        acts = [sub(u, ["hot", 0], (jj, ["emit", 0, back])) for u in range(nsub)]
+        for _ in range(rng.randrange(j + 1, j + 4)):
+            acts.append(["emit", 0, rng.choice(ALPHA)])
+        cases.append((scn(subjects=[kind], handles=3, script_=acts), {"k": "terminal-in-fanout", "no_model": True}))
     # 6. hand-driven sources (Observable::create that keeps its observers): the driver pushes any sequence, also after a
     #    terminal, and subscriber callbacks push re-entrantly (next/error/complete from inside a callback of the same observer)
     k6 = 4000 if thorough else 700
